@@ -190,3 +190,26 @@ def align_script(drv, script_text, multiple, scratch, before="ev OHe", inline=Fa
         idx = max(k for k, l in enumerate(lines) if l.strip() == "flush")
     lines[idx:idx] = pad
     return "\n".join(lines) + "\n", size + sum(12 + (len(p.split()[-1]) // 2 if p.split()[-1] != "-" else 0) for p in pad)
+
+
+def churn_check(tracedir, nev):
+    """Streams written by drivers/churndrv.c: every stream must hold exactly the
+    nev events (tid, 0..nev-1) of its own thread.  Returns (streams checked,
+    None or (key, description))."""
+    n = 0
+    for sd in obs.find_streams(tracedir):
+        tid = int(os.path.basename(sd).split(".")[1])
+        try:
+            evs = obs.decode_file(os.path.join(sd, "stream.obs"))
+        except (obs.DecodeError, OSError) as ex:
+            return n, ("churn:not-tiled", "stream of thread %d: %s" % (tid, ex))
+        mine = [e for e in evs if not is_flush_marker(e)]
+        n += 1
+        want = [struct.pack("<II", tid, k) for k in range(nev)]
+        got = [bytes(e.payload) for e in mine]
+        if got != want:
+            k_ = next((k for k in range(min(len(got), len(want))) if got[k] != want[k]), min(len(got), len(want)))
+            who = struct.unpack("<II", got[k_])[0] if k_ < len(got) and len(got[k_]) == 8 else None
+            return n, ("churn:foreign-or-missing-events", "stream of thread %d holds %d events, its thread emitted %d; first "
+                       "difference at event %d (emitted by thread %s)" % (tid, len(got), nev, k_, who))
+    return n, None
